@@ -186,12 +186,14 @@ def selftest(ctx, trace, kd):
     jobs["drop_one_event_flagged"] = (lines[s:e], lines[s:idd] + lines[idd + 1:e], None)
 
     def one(item):
+        # the untouched run and the corrupted run in ONE monitor run (a run boundary resets the monitor's state)
         name, (base_ls, bad_ls, idx) = item
-        base = judge_lines(base_ls, f"st_{name}_0.ndjson")
-        bad = judge_lines(bad_ls, f"st_{name}_1.ndjson")
+        v = judge_lines(base_ls + bad_ls, f"st_{name}.ndjson")
+        base = [x for x in v["violations"] if x <= len(base_ls)]
+        bad = [x - len(base_ls) for x in v["violations"] if x > len(base_ls)]
         if idx is None:
-            return name, len(bad["violations"]) > len(base["violations"])
-        return name, idx in bad["violations"] and idx not in base["violations"]
+            return name, len(bad) > len(base)
+        return name, idx in bad and idx not in base
     with ThreadPoolExecutor(max_workers=max(2, min(lib.NCPU, len(jobs)))) as ex:
         res = dict(ex.map(one, jobs.items()))
     ctx.cov["binding_selftest"] = res
